@@ -308,6 +308,92 @@ def outline_block(cls_node, fn, marker, name, order_hint=(), single=False):
     return None
 
 
+def outline_run(cls_node, fn, marker, name, order_hint=()):
+    """the run of sibling statements that prepares the object handed over by the marker call `r.m(V)`: from the first statement of the
+    block that mentions V (going back from the call while every statement either mentions V or only defines locals used inside the run)
+    up to the call itself. Exact like any extract-method: no return / yield / break / continue inside, locals read become parameters,
+    locals written and read afterwards are returned. The synthetic function is static when the run does not mention `self`."""
+    if not (isinstance(marker, ast.Call) and marker.args and isinstance(marker.args[0], ast.Name)):
+        return None
+    var = marker.args[0].id
+    chain = _chain(fn, marker)
+    if not chain:
+        return None
+    stmts, im = chain[-1]
+    if len(chain) > 1 and False:
+        return None
+
+    def mentions(s, nm):
+        return any(isinstance(x, ast.Name) and x.id == nm for x in ast.walk(s))
+    forbidden = (ast.Return, ast.Yield, ast.YieldFrom, ast.Break, ast.Continue, ast.FunctionDef, ast.AsyncFunctionDef, ast.ClassDef, ast.Lambda,
+                 ast.Global, ast.Nonlocal, ast.Await, ast.NamedExpr, ast.Delete)
+    lo = im
+    while lo - 1 >= 0:
+        s = stmts[lo - 1]
+        if any(isinstance(x, forbidden) for x in ast.walk(s)):
+            break
+        if mentions(s, var):
+            lo -= 1
+            continue
+        # a plain definition of locals that nothing outside the run [lo-1 .. im] reads
+        if isinstance(s, ast.Assign) and all(isinstance(t, ast.Name) for t in s.targets):
+            tg = {t.id for t in s.targets}
+            run_ids = {id(x) for r in stmts[lo - 1:im + 1] for x in ast.walk(r)}
+            used_out = any(isinstance(x, ast.Name) and x.id in tg and isinstance(x.ctx, ast.Load) and id(x) not in run_ids for x in _own_walk(fn))
+            if not used_out:
+                lo -= 1
+                continue
+        break
+    while lo < im and not mentions(stmts[lo], var):
+        lo += 1
+    region = stmts[lo:im + 1]
+    if len(region) < 2 or any(isinstance(x, forbidden) for r in region for x in ast.walk(r)):
+        return None
+    params = [a.arg for a in fn.args.args + fn.args.kwonlyargs] + ([fn.args.vararg.arg] if fn.args.vararg else []) + \
+        ([fn.args.kwarg.arg] if fn.args.kwarg else [])
+    rids = {id(x) for r in region for x in ast.walk(r)}
+    comp = _comp_bound_ids(fn)
+    writes = _names(region, ast.Store)
+    outside_loads = [n.id for n in _own_walk(fn) if isinstance(n, ast.Name) and isinstance(n.ctx, ast.Load) and id(n) not in rids and id(n) not in comp]
+    outside_stores = {n.id for n in _own_walk(fn) if isinstance(n, ast.Name) and isinstance(n.ctx, ast.Store) and id(n) not in rids and id(n) not in comp} | set(params)
+    for n in ast.walk(fn):
+        if isinstance(n, ast.ExceptHandler) and n.name and id(n) not in rids:
+            outside_stores.add(n.name)
+    uses_self = any(isinstance(x, ast.Name) and x.id == 'self' for r in region for x in ast.walk(r))
+    ins = [x for x in _names(region, ast.Load) if x in outside_stores and x != 'self' and id(x) not in comp]
+    ins = [x for x in ins if not (x in writes and x not in outside_stores)]
+    outs = [w for w in writes if w in outside_loads]
+    da = _definitely_assigned(region)
+    for w in outs:
+        if w not in da:
+            if w in outside_stores:
+                if w not in ins:
+                    ins.append(w)
+            else:
+                return None
+    hint = [h for h in order_hint if h in ins]
+    ins = hint + [x for x in ins if x not in hint]
+    call = ast.Call(func=ast.Attribute(value=ast.Name(id='self', ctx=ast.Load()), attr=name, ctx=ast.Load()),
+                    args=[ast.Name(id=x, ctx=ast.Load()) for x in ins], keywords=[])
+    body = list(region)
+    if outs:
+        tgt = ast.Name(id=outs[0], ctx=ast.Store()) if len(outs) == 1 else ast.Tuple(elts=[ast.Name(id=x, ctx=ast.Store()) for x in outs], ctx=ast.Store())
+        body.append(ast.Return(value=ast.Name(id=outs[0], ctx=ast.Load()) if len(outs) == 1 else
+                               ast.Tuple(elts=[ast.Name(id=x, ctx=ast.Load()) for x in outs], ctx=ast.Load())))
+        repl = ast.Assign(targets=[tgt], value=call)
+    else:
+        repl = ast.Expr(value=call)
+    helper = ast.FunctionDef(name=name,
+                             args=ast.arguments(posonlyargs=[], args=([ast.arg(arg='self')] if uses_self else []) + [ast.arg(arg=x) for x in ins],
+                                                kwonlyargs=[], kw_defaults=[], defaults=[]),
+                             body=body, decorator_list=[] if uses_self else [ast.Name(id='staticmethod', ctx=ast.Load())],
+                             returns=None, type_comment=None, lineno=region[0].lineno, col_offset=fn.col_offset)
+    stmts[lo:im + 1] = [ast.copy_location(repl, region[0])]
+    cls_node.body.append(helper)
+    ast.fix_missing_locations(helper)
+    return helper
+
+
 # ---- the roles -------------------------------------------------------------------------------------------------------------------
 
 def _is_draw(n):
@@ -331,6 +417,9 @@ ROLES = [
     ('playback.tape_recorder', 'TapeRecorder', '_should_sample_active_recording', _is_draw, '_sampling_decision__outlined', 'pure'),
     ('playback.tape_cassettes.s3.s3_tape_cassette', 'S3TapeCassette', '_should_sample', _is_draw, '_size_sampling_decision__outlined',
      ('pure', ('sampling_calculator', 'extract_recording_category'))),
+    ('playback.tape_recorder', 'TapeRecorder', '_add_post_operation_metadata',
+     lambda n: isinstance(n, ast.Call) and isinstance(n.func, ast.Attribute) and n.func.attr == 'add_metadata' and isinstance(n.func.value, ast.Name),
+     '_metadata_step__outlined', 'run'),
     ('playback.studio.equalizer', 'Equalizer', '_play_and_compare_recording_within_worker',
      lambda n: isinstance(n, ast.Call) and isinstance(n.func, ast.Attribute) and n.func.attr == 'put' and isinstance(n.func.value, ast.Attribute) and
      isinstance(n.func.value.value, ast.Name) and n.func.value.value.id == 'self' and 'task' in n.func.value.attr, '_dispatch__outlined', 'stmt'),
@@ -434,6 +523,8 @@ def outline_roles(trees, signatures):
             hint = signatures.get('%s::%s::%s' % (module, cls, owner), [])
             if kind == 'pure':
                 h = outline(c, m, marker, name, order_hint=[p for p in hint if p != 'self'], allowed=allowed)
+            elif kind == 'run':
+                h = outline_run(c, m, marker, name, order_hint=[p for p in hint if p != 'self'])
             else:
                 h = outline_block(c, m, marker, name, order_hint=[p for p in hint if p != 'self'], single=(kind == 'stmt'))
             if h is not None:
